@@ -68,7 +68,9 @@ Clauses(o, ev, o2) ==
       [] ev.e = "quiescent" ->
             LET Settled(a) ==
                     LET s == App(o, a) r == Req(o, a) IN
-                    /\ r.known /\ s.rstart /\ (s.parked # "send" \/ r.ver = "2") /\ s.sendExc = 0 /\ s.disc = 0
+                    \* (a disconnect handed to the application after its last message is how every exchange ends;
+                    \*  only one that came earlier makes its sends no-ops)
+                    /\ r.known /\ s.rstart /\ (s.parked # "send" \/ r.ver = "2") /\ s.sendExc = 0 /\ ~s.discEarly
                     /\ Connected(o) /\ ~o.paused /\ ~o.cerr /\ ~r.rst
                     /\ (r.ver # "2" \/ (SWin(o, a) > 0 /\ o.cwin > 0))
                 Unflushed(a) == Settled(a) /\ Wire(o, a).got # ExpLen(o, a) /\ Wire(o, a).ends = 0
